@@ -290,3 +290,7 @@ M('c16-withholding-into-income', ['C16'], Y23 + 'f1040.py', "FloatField('23', la
 M('c16-25d-summand', ['C16'], Y23 + 'f1040.py', "FloatField('25d', lambda s, i, v: v['25a'] + v['25b'] + v['25c']),", "FloatField('25d', lambda s, i, v: v['25a'] + v['25b']),", 'R16.3', 'line 25c dropped from total withholding')
 M('c16-stale-you', ['C16'], Y23 + 'f1040.py', "                    line_4b += v['8606:spouse.taxable_amount']", "                    line_4b += v['8606:you.taxable_amount']", 'R16.5', 'spouse block carries the taxpayer\'s Form 8606 (seed C02-A)')
 M('c16-loop-to-comprehension', ['C16'], Y23 + 'f1040.py', "            for n in range(i['number_w-2']):\n                if v[f'w-2:{n}.box_13_statutory']:\n                    self.not_implemented()\n", "            if any([v[f'w-2:{n}.box_13_statutory'] for n in range(i['number_w-2'])]):\n                self.not_implemented()\n", None, 'loop rewritten as any([...])', 'silent')
+
+# ------------------------------------------------------------------ C17 inline switches
+M('r175-inline-status-dropped', ['C17'], Y21 + 'f1040_s2_need6251.py', "            if i['1040.filing_status'] in [filing_status.Single, filing_status.HeadOfHousehold]:\n                return 73600.0", "            if i['1040.filing_status'] in [filing_status.Single]:\n                return 73600.0", 'R17.5', 'a status dropped from an inline 2021 chain falls into not_implemented()')
+M('r175-inline-none', ['C17'], Y21 + 'f1040_s2_need6251.py', "            elif i['1040.filing_status'] == filing_status.MarriedFilingSeparately:\n                return 57300.0\n            else:\n                self.not_implemented()", "            elif i['1040.filing_status'] == filing_status.MarriedFilingSeparately:\n                return None", 'R17.5', 'a status yields nothing in a pure switch')
